@@ -129,6 +129,20 @@ def coqchk_property(pid):
     return ok, summary
 
 
+def coqchk_code(pid):
+    """coqchk of the code-level property file of pid and everything it depends on (generated translation included)."""
+    rel = CODE_PROPS.get(pid)
+    if not rel:
+        return True, ""
+    mod = "VerifCode." + os.path.basename(rel)[:-2]
+    rc, out = sh(["coqchk", "-silent", "-o"] + TIE_ARGS + [mod], cwd=COQ, timeout=3000)
+    i = out.find("CONTEXT SUMMARY")
+    summary = " ".join(out[i:].split()) if i >= 0 else out[-1500:]
+    ok = rc == 0 and "Axioms: <none>" in summary and "type-in-type: <none>" in summary and \
+        "unsafe (co)fixpoints: <none>" in summary and "positivity is assumed: <none>" in summary
+    return ok, summary
+
+
 # ---------------------------------------------------------------- translation tie
 TRANSLATOR_DIR = os.path.join(ROOT, "translator")
 TRANSLATOR = os.path.join(TRANSLATOR_DIR, "_bin", "veriftr")
@@ -138,6 +152,8 @@ TIES = {
     "list": dict(dir="ds/list", args=["-module", "GoList"], gen="generated/GoList.v",
                  chain=["gosem/GoListFacts.v", "gosem/GoListLPush.v", "gosem/GoListLRem.v", "gosem/GoListCode.v"]),
     "set": dict(dir="ds/set", args=["-module", "GoSet"], gen="generated/GoSet.v", chain=["gosem/GoSetFacts.v"]),
+    "zset": dict(dir="ds/zset", args=["-module", "GoZSet", "-only", "SortedSet.sanitizeIndexes"], gen="generated/GoZSet.v",
+                 chain=["gosem/GoZSetFacts.v"], deps=["list"]),
     "codec": dict(dir=".", gen="generated/GoCodec.v", chain=["gosem/GoCodecFacts.v"],
                   args=["-module", "GoCodec", "-skipfiles", "verif_on.go,verif_dump.go", "-only",
                         "Entry.Size,Entry.setEntryHeaderBuf,Entry.Encode,Entry.IsZero,Entry.GetCrc,readMetaData,"
@@ -153,10 +169,11 @@ TIES = {
 }
 # which ties a property depends on, and its code-level property file
 TIES_FOR = {"C05": ["list"], "C20": ["list"], "C06": ["set"], "C21": ["codec"], "C15": ["codec"], "C01": ["codec"], "C04": ["codec"],
-            "C12": ["tx"], "C13": ["tx"]}
+            "C12": ["tx"], "C13": ["tx"], "C07": ["zset"]}
 CODE_PROPS = {"C05": "properties_code/C05_code.v", "C20": "properties_code/C05_code.v", "C06": "properties_code/C06_code.v",
               "C21": "properties_code/C21_code.v", "C15": "properties_code/C15_code.v", "C01": "properties_code/C01_code.v",
-              "C04": "properties_code/C04_code.v", "C12": "properties_code/C13_code.v", "C13": "properties_code/C13_code.v"}
+              "C04": "properties_code/C04_code.v", "C12": "properties_code/C13_code.v", "C13": "properties_code/C13_code.v",
+              "C07": "properties_code/C07_code.v"}
 
 
 def build_translator():
@@ -232,13 +249,14 @@ def translation_tie(name):
         m = re.search(r"\(\* not translated:\n(.*?)\*\)", new, re.S)
         res["skipped"] = [l.strip() for l in (m.group(1) if m else "").split("\n") if l.strip()]
         newest = max([os.path.getmtime(os.path.join(COQ, "theories", f)) for f in os.listdir(os.path.join(COQ, "theories")) if f.endswith(".vo")] or [0])
-        newest = max(newest, dep_newest)
         for rel in ["gosem/GoSem.v", tie["gen"]] + tie["chain"]:
             ok, out, mt = _coqc_tie(rel, newest)
             if not ok:
                 res.update(stage="coqc", file=rel, output=out[-3000:])
                 return res
             newest = max(newest, mt)
+            if rel == "gosem/GoSem.v":
+                newest = max(newest, dep_newest)   # the files of the ties this one imports come after GoSem.v
         res["ok"] = True
         res["newest"] = newest
         return res
